@@ -78,6 +78,11 @@ def run(ctx):
         g = refgrammar.Gen(rng, kws, exclude=excl)
         lex, lib = g.library(rng.choice([1, 1, 2]))
         cases.append({'src': 'grammar', 'name': f'g{i}', 'text': refgrammar.spell(lex), 'feats': frozenset(g.features)})
+    # every binary operator x unary operand / unary of a binary, with needed and with redundant parentheses (exhaustive)
+    from .c01 import operator_unary_shapes
+    for name, txt in operator_unary_shapes(refgrammar.Gen(rng, kws, exclude=excl)):
+        cases.append({'src': 'grammar', 'name': name, 'text': f'PROGRAM pp0\nVAR rr0 : INT; END_VAR\nrr0 := {txt};\nEND_PROGRAM\n',
+                      'feats': frozenset(['operator-shape:' + name])})
     # the literal space of C09 (every literal the parser must accept), each as an initial value
     from . import c09
     for (ty, lit, exp, kind) in c09.int_cases() + c09.real_cases() + c09.dur_cases() + c09.tod_cases() + c09.date_cases() + c09.str_cases():
